@@ -46,7 +46,7 @@ def main(argv):
         res = {}
         for p in props:
             env2 = dict(os.environ, VERIF_REPO=repo)
-            c = subprocess.run([os.path.join(VERIF, "check"), p, "--no-selfcheck", "--no-shrink"] + extra, env=env2, capture_output=True, text=True, timeout=7200)
+            c = subprocess.run([os.path.join(VERIF, "check"), p, "--no-selfcheck", "--no-shrink"] + extra, env=env2, capture_output=True, text=True, timeout=2400)
             first = [l for l in c.stdout.split("\n") if l.startswith(("violation ", "HARNESS"))][:1]
             res[p] = {"exit": c.returncode, "verdict": {0: "MISSED", 1: "caught", 2: "HARNESS-ERROR"}.get(c.returncode, str(c.returncode)),
                       "first": first[0][:300] if first else ""}
